@@ -28,7 +28,15 @@ def strategy(tier, unit):
         "d": unitv, "tthd": st.one_of(S.fl(0.5, 150.0), st.sampled_from([0.5, 150.0, 90.0, 60.0, 120.0])), "chi": tilt, "wedge": tilt, "scale": S.logfl(1e-2, 1e2),
         "near_axis": st.one_of(st.none(), st.none(), st.tuples(S.fl(-8, -1), st.sampled_from([1.0, -1.0])).map(list)),
         "cell": S.cells(1.0, 50.0), "hkl": S.hkls(6), "rot": S.rot_specs(1), "wl": S.fl(0.05, 0.2),
-        "prev_rel": st.one_of(st.none(), S.logfl(1e-9, 1e-3))})
+        "prev_rel": st.one_of(st.none(), S.logfl(1e-9, 1e-3)),
+        # constructive mode: g is built from a chosen solution (omega0, eta0) of a chosen solver, so that special values of
+        # eta and the solvers' internal singularities (denominators that vanish) are reached on purpose
+        "construct": st.one_of(st.none(), st.none(), st.fixed_dictionaries({
+            "solver": st.sampled_from(["find_omega_general", "find_omega_quart", "find_omega_wedge", "find_omega"]),
+            "omega0": st.one_of(S.fl(-math.pi, math.pi), st.sampled_from([0.0, math.pi / 2, math.pi, -math.pi / 2])),
+            "eta_mode": st.sampled_from(["generic", "special", "wedge-singular"]),
+            "eta0": st.one_of(S.fl(-math.pi, math.pi), st.sampled_from([0.0, math.pi / 2, math.pi, -math.pi / 2])),
+            "delta": st.one_of(st.just(0.0), st.tuples(S.logfl(1e-13, 1e-3), st.sampled_from([-1.0, 1.0])).map(lambda t: t[0] * t[1]))}))})
 
 
 def check(case, ctx):
@@ -43,6 +51,32 @@ def check(case, ctx):
     th = tth / 2
     g = O.ro(math.sin(th) * d)
     chi, wedge = case["chi"] + 0.0, case["wedge"] + 0.0
+    cons = case.get("construct")
+    expect = None
+    if cons is not None:
+        sv = cons["solver"]
+        eta0 = cons["eta0"]
+        if cons["eta_mode"] == "wedge-singular" and abs(math.tan(wedge)) > abs(math.tan(th)) + 1e-9:
+            # find_omega_wedge divides by a = cos(w)(cos 2th - 1) + sin(w) sin 2th cos(eta), which vanishes at cos(eta) = tan(th)/tan(w)
+            eta0 = math.acos(max(-1.0, min(1.0, math.tan(th) / math.tan(wedge)))) + cons["delta"]
+            sv = "find_omega_wedge"
+            ctx.event("constructed: eta at/near the wedge-solver singularity")
+        elif cons["eta_mode"] == "special":
+            eta0 = [0.0, math.pi / 2, math.pi, -math.pi / 2][int(abs(cons["eta0"]) * 1000) % 4] + cons["delta"]
+        tvec = np.array([-math.sin(th) ** 2, -0.5 * math.sin(tth) * math.sin(eta0), 0.5 * math.sin(tth) * math.cos(eta0)])
+        om0 = cons["omega0"]
+        if sv == "find_omega_general":
+            M0_ = O.Rx(chi) @ O.Ry(wedge) @ O.Rz(om0)
+        elif sv == "find_omega_quart":
+            P_ = O.Rx(chi) @ O.Ry(wedge)
+            M0_ = P_ @ O.Rz(om0) @ P_.T
+        elif sv == "find_omega_wedge":
+            M0_ = O.Ry(-wedge) @ O.Rz(om0)
+        else:
+            M0_ = O.Rz(om0)
+        g = O.ro(M0_.T @ tvec)
+        expect = (sv, om0, eta0)
+        ctx.event("constructed-from-solution/" + sv)
     both = chi != 0 and wedge != 0
     ctx.event("tilts:" + ("both" if both else "chi" if chi else "wedge" if wedge else "none"))
     target_x = -math.sin(th) ** 2
@@ -109,6 +143,11 @@ def check(case, ctx):
             else:
                 cond = 1.0 / max(math.sqrt(max(1 - min(1.0, (rhs / amp) ** 2), 0.0)), 1e-6) / max(amp / math.sin(th), 1e-6)
             sols[(mname, name)] = (om, eta_a, tangent, cond)
+            # constructive completeness: the solution g was built from must be among the returned ones
+            if expect is not None and expect[0] == name and not tangent and cond < 1e5:
+                if len(om) == 0 or min(O.ang_diff(float(x), expect[1]) for x in om) > 1e-8 * cond * (40.0 if name == "find_omega" else 1.0) + 1e-9:
+                    ctx.fail("constructed-solution-missing/" + name, "%s: g was built from omega=%r eta=%r (2theta=%r chi=%r wedge=%r) but the solver returned %r" % (
+                        tag, expect[1], expect[2], tth, chi, wedge, om.tolist()))
     ctx.nontrivial(both and any_two)
     # agreement where the tilts coincide
     def same(a, b):
